@@ -131,6 +131,12 @@ def run(ctx, idx):
     res, out, fi = R.summarize_helper(idx, "mpilot.utils", "insure_fuzzy", [sym, Scal(sym="lo"), Scal(sym="hi")])
     con = "%s::both-sides" % fi.key
     want = (("s", "lo"), ("s", "hi"))
+    if not (isinstance(out, Arr) and out.rng == want):
+        # a helper that orders its limits first (`max(lo, hi)`) has no symbolic summary: read it with the limits every fuzzy
+        # producer passes, FUZZY_MIN = -1 and FUZZY_MAX = +1
+        res2, out2, _fi2 = R.summarize_helper(idx, "mpilot.utils", "insure_fuzzy", [sym, Scal(const=-1), Scal(const=1)])
+        if isinstance(out2, Arr) and out2.rng == (("c", -1), ("c", 1)):
+            out, want = out2, (("c", -1), ("c", 1))
     if isinstance(out, Arr) and out.rng == want and "X" in out.alias:
         ctx.hold("C04.b", con, K.rel(fi), fi.node.lineno, "bounds below by its 2nd and above by its 3rd argument and returns the clamped object")
     else:
